@@ -23,6 +23,13 @@ model checking
            Total; "twoBranches" -> Deterministic; "strictSkips:CEnd" -> StrictIffWarn;
            "trailingFirst" -> NormalForm; "authorOnTruncated" (drops the domain guard) ->
            NormalFormEdited.
+   hist    formatting as part of the history (shared with C04): on every two-block changelog parsed from
+           a well-formed text, <= 3 (thorough 4) calls out of Fmt (str(changelog) / str(block)), attribute
+           assignment on ANY block through the block object, in-place container edits (other_pairs[k] = v,
+           changes().append / insert / del, add_trailing_line), new_block, add_change: FormatIsCurrent
+           (every observed output is the reference Format of the CURRENT document), NormalFormHist.
+           Negative controls Bug = "OlderBlocksMemo" (quick and thorough) and "BlockRenderCache"
+           (thorough): the two round-2 seeded changes -> FormatIsCurrent.
 binding:   (a) every edge of the closed LTS (control state x class) is replayed: shortest class path to
                the source state + the class (+ the shortest warning-free completion to a state where
                the end-of-input rule is silent, so that every warning kind is also seen as the ONLY
@@ -40,6 +47,18 @@ binding:   (a) every edge of the closed LTS (control state x class) is replayed:
                verdict mode: rejected again = violation, otherwise specification drift).  Every
                validation run also contains two hand-written golden traces (must be accepted) and
                seven corruptions of them (must be rejected).
+           (c') every formatting history of the hist configuration: the calls are made on the real object
+               (formatting before and between the edits as in the history); the last output must equal
+               the concretized reference output of TLC and satisfy the fixpoint law;
+           sizes (notes/SIZE_STRESS.md): every 40th bounded text, every third LTS edge, every tenth
+               recorded history and a handful of big texts are size-stressed (lines up to 65537
+               characters, package names / versions of 33 ... 1025 characters, epochs >= 2**31, 100
+               distributions / pairs, runs of 100 - 1000 lines, 100 - 1000 blocks, 100 - 1000 older
+               entries below a formatting history); the laws are self-consistency, so no expectation
+               changes;
+           objects / order: the same text is parsed repeatedly, strict and lenient alternating, both
+               allow_empty_author values in random order (every repetition must agree); earlier
+               Changelog objects are kept alive and re-verified after other objects were used.
 verdict observables (the statement): the lenient constructor returns; number of warnings > 0 <=> the
            strict constructor raises ChangelogParseError, no other exception type; whenever str()
            succeeds (ChangelogCreateError = "cannot be formatted", any other exception is a
@@ -48,8 +67,10 @@ verdict observables (the statement): the lenient constructor returns; number of 
 diagnostic (spec drift, never an alarm): warning predictions, block / change / trailing counts, block
            contents, formattability.
 unspecified: author / date assigned to a block that has no trailer because the input ended inside it
-           (str() does not emit a trailer for such a block, so the value cannot survive); executed,
-           any outcome accepted.  The guard is evaluated by TLC (Specified).
+           (str() does not emit a trailer for such a block, so the value cannot survive), and a
+           trailing line added to such a block with add_trailing_line (it is formatted right after the
+           change lines and reads back as one of them); executed, any outcome accepted.  The guard is
+           evaluated by TLC (Specified).
 """
 import json
 from collections import deque
@@ -62,7 +83,7 @@ from lts import skey
 MANIFEST = dict(
     technique="TLA+ spec Changelog (parse_changelog as five-state automaton over 24 line classes with incremental outputs, EOF / empty-file rules, formatter, editing calls) model-checked by TLC: closed LTS (Total, Deterministic, StrictIffWarn) and bounded mutated texts / edit histories (NormalForm); every LTS edge, every bounded text and every edit history replayed into Changelog with both allow_empty_author settings; prefix-closure traces of mutated changelogs and random edit histories validated by TLC (TraceChangelog)",
     text="TLC explores the closed control-state space of the parser (5 states x flags, 24 line classes, both allow_empty_author settings) and checks that exactly one branch handles every class in every state, that the if/elif cascade equals the guard table, and that a strict run raises exactly when the lenient run has warned, including the end-of-input and empty-file rules. A bounded configuration enumerates every text of up to 6 lines that is one or two line mutations (insert any class, delete, duplicate) away from a well-formed changelog, plus all prefixes, and checks that whatever the parser builds, if it can be formatted, formats to a fixpoint of parse-then-format with the same blocks; an edit configuration does the same after up to 4 editing calls on empty or parsed changelogs. All of these texts and histories are concretized (old-format markers, mode lines, keywords, comments, one-space and bare trailers, junk, defective headers) and replayed into the real class: the lenient constructor must return, warnings > 0 must coincide with ChangelogParseError from the strict constructor, and str() output must re-parse to the same blocks and the identical text. Random mutated changelogs of up to 60 lines and random editing histories are recorded by prefix closure with independently classified lines and validated by TLC.",
-    note="Small scope: closed LTS over classes (unbounded length), normal-form law exhaustively for <= 6 lines / <= 2 mutations / <= 4 edits; longer inputs sampled. The C15 verdicts are the self-consistency laws of the statement; TLC's predictions of warnings, counts and contents are diagnostics (drift). Unspecified: author/date assigned on a block without trailer. Lines never contain a str.splitlines() boundary character (DESIGN D1); editing calls get well-formed values (D3). Five spec-level negative controls and corrupted control traces are required to fail in every run.",
+    note="Small scope: closed LTS over classes (unbounded length), normal-form law exhaustively for <= 6 lines / <= 2 mutations / <= 4 edits; longer inputs sampled. The C15 verdicts are the self-consistency laws of the statement; TLC's predictions of warnings, counts and contents are diagnostics (drift). Unspecified: author/date assigned on a block without trailer. Lines never contain a str.splitlines() boundary character (DESIGN D1); editing calls get well-formed values (D3). Seven spec-level negative controls (among them the two formatter caches of the round-2 seeded changes) and corrupted control traces are required to fail (quick tier: three of them). Formatting is part of every history (formatted before and between edits, edits on older blocks and in place); sizes follow notes/SIZE_STRESS.md.",
     design="5 (C15)")
 
 SUBSET = '{"Junk", "EndNoDetails", "EndOneSpace", "Vim", "HashComment", "TopBadKV", "Old8"}'
@@ -181,18 +202,18 @@ def lts_completions(edges, eof):
     return comp
 
 
-def replay_edge(ctx, rng, e, path, eof, canonical, completion=()):
+def replay_edge(ctx, rng, e, path, eof, canonical, completion=(), stress=False):
     """-> violation message or None; diagnostics go to ctx.drift"""
     aea = e["aea"]
     classes = path + [e["c"]]
     full = classes + list(completion)
-    lines_full, _ = cc.conc_text(rng, full, canonical=canonical)
+    lines_full, _ = cc.conc_text(rng, full, canonical=canonical, stress=stress)
     lines = lines_full[:len(classes)]
     case = {"kind": "text", "lines": lines, "aea": aea, "classes": classes}
     for n in (len(lines) - 1, len(lines), len(lines_full)):
         if n == 0:
             continue
-        msg, _info = cc.c15_laws(cc.join(lines_full[:n]), aea)
+        msg, _info = cc.c15_laws(cc.join(lines_full[:n]), aea, rng)
         if msg:
             case["lines"] = lines_full[:n]
             case["classes"] = full[:n]
@@ -225,11 +246,13 @@ def replay_edge(ctx, rng, e, path, eof, canonical, completion=()):
 
 # ------------------------------------------------------------------ (b) bounded texts
 
-def replay_text(ctx, rng, case, aea, canonical, stats):
+def replay_text(ctx, rng, case, aea, canonical, stats, stress=False, alive=None):
     classes = case["t"]
-    lines, _ = cc.conc_text(rng, classes, canonical=canonical)
+    lines, _ = cc.conc_text(rng, classes, canonical=canonical, stress=stress)
     text = cc.join(lines)
-    msg, info = cc.c15_laws(text, aea)
+    msg, info = cc.c15_laws(text, aea, rng)
+    if alive is not None and info.get("cl") is not None:
+        alive.add(info["cl"], "text %s" % "".join(c[0] for c in classes))
     if msg:
         return {"kind": "text", "lines": lines, "aea": aea, "classes": classes}, msg
     # diagnostics against TLC's predictions
@@ -247,6 +270,35 @@ def replay_text(ctx, rng, case, aea, canonical, stats):
         if sh is not None and sh != case["doc"]:
             ctx.drift("text %s aea=%s: shape %r, specification predicts %r (%r)" % (classes, aea, sh, case["doc"], lines))
     return None, None
+
+
+def replay_big(ctx, rng, quick):
+    """a handful of size-stressed texts (notes/SIZE_STRESS.md): hundreds / a thousand blocks, runs of
+    hundreds of change lines, very long lines, long names and versions, many distributions and
+    pairs, epochs >= 2**31, boundary dates -- well-formed and with a few line mutations (stressed junk,
+    old-format markers ...).  The C15 laws need no expectation: they are self-consistency."""
+    n = 0
+    base = ["Blank", "TopOK", "Blank", "Change", "Change", "Blank", "EndOK", "Blank", "TopOK", "Change", "EndOK", "Blank"]
+    struct = {"ini": [1], "bl": [{"ch": [3, 4, 5, 6], "tr": [8]}, {"ch": [10], "tr": [12]}]}
+    plans = [("payload", False), ("lines", False), ("blocks", False), ("payload", False)] if quick else \
+        [(m, b) for m in ("payload", "lines", "blocks") for b in (False, False, True)] * 3
+    for j, (mode, big) in enumerate(plans):
+        lines, _c, _s = cc.stress_case(rng, base, struct, mode, big)
+        for nmut in ((0, 2) if quick else (0, 1, 3)):
+            ls = list(lines)
+            for _ in range(nmut):
+                t, _k = cc.conc_line(rng, rng.choice(cc.ALL_CLASSES), stress=True)
+                ls.insert(rng.randint(0, len(ls)), t)
+            aea = bool((j + nmut) % 2)
+            msg, _info = cc.c15_laws(cc.join(ls), aea, rng)
+            ctx.case_seen(("big", mode, j, nmut), True)
+            n += 1
+            if msg:
+                keep = len(ls) <= 400
+                ctx.violation({"kind": "text", "lines": ls if keep else ls[:400], "aea": aea, "classes": [], "truncated": not keep},
+                              "size-stressed text (%s, %d lines, longest %d characters): %s" % (mode, len(ls), max(map(len, ls)), msg))
+                return n
+    return n
 
 
 # ------------------------------------------------------------------ (c) edit histories
@@ -304,7 +356,7 @@ def run(ctx):
     ctx.assumptions += [
         "closed LTS over 24 line classes (texts of any length); normal-form law exhaustively for %s and <= %d editing calls" % (("<= 6 lines with 1 mutation", 2) if quick else ("<= 7 lines with 1 mutation, <= 5 lines with 2 mutations", 4)),
         "the C15 verdicts are the statement's self-consistency laws; TLC's predictions of warnings / counts / contents are diagnostics",
-        "unspecified: author/date assigned on a block without trailer (input ended inside the block)",
+        "unspecified: author/date assigned, or a trailing line added, on a block without trailer (input ended inside the block)",
         "lines never contain a str.splitlines() boundary character (DESIGN D1); editing calls get well-formed values (D3)",
         "trusted: TLC, the concretizer, the independent line classifier, the projections",
     ]
@@ -328,7 +380,7 @@ def run(ctx):
         else:
             _cls, lines, _ = cc.gen_wellformed(rng, rng.choice([4, 8, 14]))
             lines = cc.mutate(rng, lines, rng.choice([0, 0, 1, 1, 2]), 16)
-        t = cc.record_edit_trace(rng, lines, aea=bool(i % 2), nops=rng.randint(1, 12))
+        t = cc.record_edit_trace(rng, lines, aea=bool(i % 2), nops=rng.randint(1, 12), wf=False, stress=(i % 10 == 9))
         if t is None:
             ctx.violation({"kind": "text", "lines": lines, "aea": bool(i % 2), "classes": []},
                           "lenient constructor raised %s" % cc.construct(cc.join(lines), aea=bool(i % 2)).exc)
@@ -345,6 +397,7 @@ def run(ctx):
                  ("text7", cfg("text", lines=7, blocks=2, body=2, budget=1, invs=TEXT_INVS), W, {"CASE"}),
                  ("edit", cfg("edit", classes="= " + SUBSET, lines=3, blocks=1, body=1, budget=1, edits=3, invs=EDIT_INVS, lead=0), W, {"CASE"}),
                  ("edit4", cfg("edit", classes="= {}", lines=2, blocks=1, body=1, budget=0, edits=4, invs=EDIT_INVS), W, {"CASE"})]
+    jobs += [("hist", cc.hist_cfg(3, 1), 2 if quick else 6, {"CASE"})] + ([] if quick else [("hist4", cc.hist_cfg(4, 0), 6, {"CASE"})])
     res = {}
     # quick: two of the negative controls (closed automaton, normal-form law); thorough: all five
     controls_now = [n for n in NEG_CONTROLS if not quick or n[0] in ("noBranch:CNoDetailsReject", "trailingFirst")]
@@ -353,6 +406,8 @@ def run(ctx):
         futs = {name: ex.submit(ctx.tlc_must_hold, "Changelog", c, workers=w, want_tags=tags, java_opts=cc.jopts(ctx)) for name, c, w, tags in jobs[1:]}
         futs["lts"] = ex.submit(ctx.tlc_must_hold, "Changelog", jobs[0][1], workers=1, want_tags={"EDGE"}, java_opts=cc.jopts(ctx))
         negs = {name: ex.submit(neg_control, ctx, name, text, want) for name, text, want in controls_now}
+        for bug, want in (cc.HIST_NEG[1:] if quick else cc.HIST_NEG):
+            negs[bug] = ex.submit(neg_control, ctx, bug, cc.hist_cfg(3, 0, bug=bug, emit=False), want)
         for name, f in futs.items():
             res[name] = f.result()
         ctx.extra["spec_negative_controls"] = {name: f.result() for name, f in negs.items()}
@@ -381,7 +436,8 @@ def run(ctx):
             raise core.MachineryError("LTS state without path: %r" % (k,))
         for j in range(2 if quick else 6):
             case, msg = replay_edge(ctx, rng, e, paths[k], eof, canonical=(j == 0),
-                                    completion=comp.get((e["aea"], skey(e["to"])), ()))
+                                    completion=comp.get((e["aea"], skey(e["to"])), ()),
+                                    stress=(j > 0 and (n_edges // 2) % 3 == 0))
             ctx.case_seen(("edge", k[0], k[1], e["c"]), True)
             n_edges += 1
             if msg:
@@ -408,10 +464,17 @@ def run(ctx):
     stats = {"warned": 0, "formattable": 0}
     n_text = 0
     kconc = 1
-    for k in keys:
+    alive = cc.Alive()
+    for ki, k in enumerate(keys):
         c = cases[k]
+        if ki % 997 == 0:
+            m = alive.recheck()
+            if m:
+                ctx.violation({"kind": "alive", "note": m}, m)
+                break
         for j in range(kconc):
-            case, msg = replay_text(ctx, rng, c, k[1], canonical=False, stats=stats)
+            case, msg = replay_text(ctx, rng, c, k[1], canonical=False, stats=stats, stress=(ki % 40 == 7),
+                                    alive=alive if ki % 450 == 0 else None)
             ctx.case_seen(("text", k), len(k[0]) > 0)
             n_text += 1
             if msg:
@@ -426,7 +489,23 @@ def run(ctx):
     ctx.sample("mutated text %s aea=%s -> %s; TLC: nw=%d fmt=%s shape=%s" % (
         "/".join(k[0]), k[1], json.dumps(cc.join(lines), ensure_ascii=False), cases[k]["nw"], cases[k]["fmt"], json.dumps(cases[k]["doc"])))
 
+    n_text += replay_big(ctx, rng, quick)
+    m = alive.recheck()
+    if m:
+        ctx.violation({"kind": "alive", "note": m}, m)
     lap("replay_texts")
+    # ---- (c') formatting as part of the history: TLC's reference output for every history that ends in a formatting call
+    hcases = []
+    for name in ("hist", "hist4"):
+        if name in res:
+            hcases += [c for c in res[name].printed.get("CASE", []) if isinstance(c, dict)]
+    hcases.sort(key=lambda c: (len(c["ops"]), len(c["t"]), json.dumps(c, sort_keys=True)))
+    hseen = set()
+    hcases = [c for c in hcases if not (cc.json_key([c["t"], c["ops"]]) in hseen or hseen.add(cc.json_key([c["t"], c["ops"]])))]
+    n_hist = cc.replay_hist_cases(ctx, rng, hcases, c04=False, nconc=1 if quick else 2, nstress=5 if quick else 60, alive=alive)
+    ctx.extra["format_histories"] = {"states": sum(res[n].distinct for n in ("hist", "hist4") if n in res), "cases": len(hcases), "replayed": n_hist}
+    n_text += n_hist
+    lap("replay_format_histories")
     # ---- (c) edit histories
     estats = {"formattable": 0, "unspecified": 0}
     n_edit = 0
@@ -469,7 +548,7 @@ def run(ctx):
         t = traces[i - 1]
         at = info.get(i, 0)
         ctx.drift("%s trace %d: diagnostic mismatch at event %d (%r)" % (
-            t["kind"], i, at + 1, (t["text"][at] if t["kind"] == "parse" and at < len(t["text"]) else t["calls"][at][:2] if t["kind"] == "edit" and at < len(t["calls"]) else None)))
+            t["kind"], i, at + 1, (t["text"][at] if t["kind"] == "parse" and at < len(t["text"]) else [t["calls"][at][k] for k in ("op", "i", "x")] if t["kind"] == "edit" and at < len(t["calls"]) else None)))
     tp = traces[0]
     ctx.sample("parse trace, last event of %d: %s" % (len(tp["lines"]), json.dumps({k: v for k, v in tp["lines"][-1].items() if k != "doc"}, separators=(",", ":"))))
     te = traces[-1]
@@ -484,9 +563,9 @@ def run(ctx):
                           "parsing the first %d lines (last: %r): %s" % (at + 1, t["text"][at] if at < len(t["text"]) else None, law_message(ev)))
         else:
             ev = t["ops"][at] if at < len(t["ops"]) else None
-            ctx.violation({"kind": "trace", "trace": {"kind": "edit", "text": t["text"], "aea": t["aea"], "calls": t["calls"]},
+            ctx.violation({"kind": "trace", "trace": {"kind": "edit", "text": t["text"], "aea": t["aea"], "wf": t["wf"], "calls": t["calls"]},
                            "first_unexplained_event": at + 1},
-                          "editing call %d %r: %s" % (at + 1, t["calls"][at][:2] if at < len(t["calls"]) else None, law_message(ev)))
+                          "call %d %r: %s" % (at + 1, [t["calls"][at][k] for k in ("op", "i", "x", "arg")] if at < len(t["calls"]) else None, law_message(ev)))
 
 
 def law_message(ev):
@@ -497,7 +576,7 @@ def law_message(ev):
     if "sr" in ev and ev["sr"] != (ev["w"] > 0):
         return "strict %s but lenient emitted %d warning(s)" % ("raised" if ev["sr"] else "returned", ev["w"])
     if ev.get("fmt") and not ev.get("nf"):
-        return "str() output is not a normal form (re-parsing changes the blocks or the text)"
+        return "the formatted output is not a normal form (re-parsing changes the blocks or the text)"
     if not ev.get("nf", True):
         return "an editing call or str() raised an unexpected exception"
     return "observation not explained by the specification: %s" % json.dumps(ev)[:300]
@@ -506,8 +585,19 @@ def law_message(ev):
 def replay(ctx, case):
     kind = case["kind"]
     if kind == "text":
-        msg, _ = cc.c15_laws(cc.join(case["lines"]), case["aea"])
-        return msg
+        if case.get("truncated"):
+            return "the size-stressed text was too large to record; re-run ./check C15 with the same seed"
+        import random
+        for seed in range(4):           # the laws also cover repeated parses in varying order
+            msg, _ = cc.c15_laws(cc.join(case["lines"]), case["aea"], random.Random(seed))
+            if msg:
+                return msg
+        return None
+    if kind == "hist":
+        contents = [tuple(c) if isinstance(c, list) else c for c in case["contents"]]
+        return cc.run_hist(dict(case, contents=contents), c04=False)
+    if kind == "alive":
+        return "cross-object interference is not replayable from a single case; re-run ./check C15 (%s)" % case.get("note")
     if kind == "edit":
         msg = run_edit(case)
         return None if isinstance(msg, tuple) else msg
